@@ -1,4 +1,4 @@
-import Varpulis.Lemmas.SaseBounds
+import Varpulis.Lemmas.SaseMulti
 /-!
 # C03 — Kleene closures report every admissible combination, up to the documented caps
 
@@ -169,6 +169,53 @@ theorem admissible_spec (p : Pred) (cap : Cap) (kept : List Ev) (s : List Nat) :
   constructor
   · rintro ⟨⟨h1, h2⟩, h3, h4⟩; exact ⟨h3, h1, h2, h4⟩
   · rintro ⟨h3, h1, h2, h4⟩; exact ⟨⟨h1, h2⟩, h3, h4⟩
+
+/-! ### several concurrent runs (streams with several A events) -/
+
+/-- the loop over the runs of a partition treats every run on its own: if no run panics it terminates normally, and
+the surviving runs / the reported groups are, up to the order induced by `swap_remove`, those of each run taken
+alone (`contrib` = `advance` of that run on the event) -/
+theorem runs_processed_independently (nfa : Nfa) (lim : Limits) (e : Ev) (runs : List Run)
+    (h : ∀ r ∈ runs, advance nfa lim r e ≠ .panic) :
+    ∃ runs' ms, processRuns nfa lim e runs.length runs 0 [] = some (runs', ms) ∧
+      runs'.Perm (runs.filterMap fun r => (contrib nfa lim e r).1) ∧
+      ms.Perm (runs.flatMap fun r => (contrib nfa lim e r).2) := by
+  simpa using processRuns_perm nfa lim e runs.length [] runs [] (Nat.le_refl _) h
+
+/-- `A -> all B -> C` on a stream with any number of A events (and B / other events in any interleaving) followed by
+C, all started runs fitting under `max_runs` (no backpressure): nothing is emitted before C; the completion reports, up to
+order, the concatenation over the accepted A events (`starts`: each with the B events that arrive *after it*) of that run's
+own report `ownReport` — and this is exactly what the single-run stream "that A, its own B events, C" reports (third
+conjunct), whose content is described by `consistent_one_match` (all its accumulated B events) and
+`selfref_emits_admissible` (its own admissible subsets). The runs do not influence one another. -/
+theorem kleene_runs_independent (pa pb pc : Option Pred) (cfg : Cfg) (es : List Ev) (eC : Ev)
+    (hp : cfg.partitioned = false) (hm : 1 ≤ cfg.maxRuns) (hk : 1 ≤ cfg.lim.maxEvents)
+    (h2 : ∀ e ∈ es, e.ty ≠ 2) (hC : eC.ty = 2) (hcap : (es.filter (accepts pa)).length ≤ cfg.maxRuns) :
+    ∃ groups,
+      emittedAll (compile (midSteps pa pb pc)) cfg (es ++ [eC]) = some (es.map (fun _ => []) ++ [groups]) ∧
+      groups.Perm ((starts pa es).flatMap fun x =>
+        ownReport (postOf pb) pc cfg.lim eC (soloOpen (eagerOf pb) cfg.lim.maxEvents x)) ∧
+      ∀ x ∈ starts pa es,
+        emittedAll (compile (midSteps pa pb pc)) cfg (x.1 :: (x.2 ++ [eC])) =
+          some ([] :: (x.2.map fun _ => []) ++
+            [ownReport (postOf pb) pc cfg.lim eC (soloOpen (eagerOf pb) cfg.lim.maxEvents x)]) := by
+  rw [compile_mid]
+  obtain ⟨groups, h1, h3⟩ := emitted_mid_multi pa (eagerOf pb) (postOf pb) pc cfg es eC hp hk h2 hC hcap
+  refine ⟨groups, h1, h3, ?_⟩
+  intro x hx
+  obtain ⟨ha, hb⟩ := starts_mem pa es x hx
+  exact solo_report pa (eagerOf pb) (postOf pb) pc cfg x.1 eC x.2 hp hm hk ha hb hC
+
+/-- non-vacuity: two A events, interleaved B events, `x > b.x`: the first run (B.x = 5, 3, 9) reports its five admissible
+subsets, the second run (B.x = 3, 9) its three -/
+example :
+    let p : Pred := .cmpRef 0 .gt 1 0
+    let ev (i t : Nat) (x : Int) : Ev := { id := i, ty := t, x := some x, y := none }
+    let evs := [ev 0 0 0, ev 1 1 5, ev 2 0 0, ev 3 1 3, ev 4 1 9, ev 5 2 0]
+    ((((emittedAll (compile (midSteps none (some p) none)) { maxRuns := 4, lim := ⟨20, 10000⟩ } evs).getD []).getLastD []).map
+      fun g => g.map fun m => m.enum.map (·.2)) =
+        [[some [2], some [1], some [1, 2], some [0], some [0, 2]], [some [1], some [0], some [0, 1]]] := by
+  decide
 
 /-! ### patterns whose last step is `all` (consistent filter) -/
 
